@@ -193,6 +193,32 @@ def get_system(sid: int):
             add(f"{k}_c_y", "float", "year", g, formula=mk_c_y(k))
             add(f"{k}_nb", "int", "month", g, formula=g_nb)
             add(f"proj_{k}", "float", "year", person, formula=mk_proj(k))
+
+            # what depends on members_position / members_role and not only on the memberships
+            def g_first(pop, period):
+                return pop.value_from_first_person(pop.members("f_m", period))
+
+            def g_nth1(pop, period):
+                return pop.value_nth_person(1, pop.members("f_m", period), default=-1)
+
+            def g_nth2(pop, period):
+                return pop.value_nth_person(2, pop.members("i_m", period), default=-7)
+
+            def mk_role_sum(_role):
+                def g_role_sum(pop, period):
+                    return pop.sum(pop.members("f_m", period), role=_role)
+                return g_role_sum
+
+            def mk_role_nb(_role):
+                def g_role_nb(pop, period):
+                    return pop.nb_persons(role=_role)
+                return g_role_nb
+
+            add(f"{k}_first", "float", "month", g, formula=g_first)
+            add(f"{k}_nth1", "float", "month", g, formula=g_nth1)
+            add(f"{k}_nth2", "int", "month", g, formula=g_nth2)
+            add(f"{k}_role_sum", "float", "month", g, formula=mk_role_sum(g.flattened_roles[-1]))
+            add(f"{k}_role_nb", "int", "month", g, formula=mk_role_nb(g.roles[0]))
     tbs.neutralize_variable("neut_m")
     if sid == 1:
         tbs.cache_blacklist = {"c_m", "c_e"}
@@ -295,6 +321,7 @@ class Run:
             import numpy
             pop = sim.populations[gkey]
             pop.members_entity_id = numpy.array([remap[i % len(remap)] % pop.count for i in range(sim.persons.count)])
+        self._structure(sc)
         for var, per, vseed in sc.get("inputs", []):
             vt = self.info["inputs"][var][0]
             count = sim.populations[self.info["inputs"][var][3]].count
@@ -309,6 +336,46 @@ class Run:
                 self.errors.append((kind, var, per, type(e).__name__))
         for poke in sc.get("pokes", []):
             self._poke(poke)
+
+    def _structure(self, sc):
+        """structural fields put in a non-default state through the public attributes, before any
+        input or request: explicit member positions (a permutation inside each group, e.g. a
+        survey's own ranking), explicit roles, explicit identifiers"""
+        import random
+
+        import numpy
+        sim = self.sim
+        for gkey, seed in sc.get("positions", {}).items():
+            pop = sim.populations[gkey]
+            r = random.Random(seed)
+            mei = [int(x) for x in pop.members_entity_id]
+            pos = [0] * len(mei)
+            for g in set(mei):
+                idx = [i for i, x in enumerate(mei) if x == g]
+                perm = list(range(len(idx)))
+                r.shuffle(perm)
+                if len(idx) > 1 and perm == sorted(perm):
+                    perm = perm[1:] + perm[:1]           # never the order of appearance
+                for i, q in zip(idx, perm):
+                    pos[i] = q
+            pop.members_position = numpy.array(pos, dtype=numpy.asarray(pop.members_entity_id).dtype)
+        for gkey, seed in sc.get("roles", {}).items():
+            pop = sim.populations[gkey]
+            flat = list(pop.entity.flattened_roles)
+            if flat:
+                r = random.Random(seed)
+                pop.members_role = numpy.array([r.choice(flat) for _ in range(len(pop.members_entity_id))])
+        for key, (kind, seed) in sc.get("ids", {}).items():
+            pop = sim.populations[key]
+            r = random.Random(seed)
+            n = int(pop.count)
+            if kind == "ints":
+                ids = r.sample(range(-5, 10 * n + 20), n)
+            elif kind == "array":
+                ids = numpy.array(r.sample(range(1000, 1000 + 3 * n + 5), n))
+            else:
+                ids = [f"{r.choice(['id', chr(233), 'x y', 'A|b'])}{i}" for i in r.sample(range(100), n)]
+            pop.ids = ids
 
     def _poke(self, poke):
         """states no public call produces: an array written straight into a holder's memory store"""
